@@ -4,8 +4,16 @@ C19 — a refinement run never loses the user's model, whatever SHELXL does.
 The real `Shelxfile.refine()` is driven against a scripted stand-in for the `shelxl` executable (a shell script that
 carries the 'Version 201x/y' marker the finder looks for, placed first on PATH for the duration of a case). A side
 channel file tells the stand-in which outcome to play: exit status; <name>.res written from the .ins / emptied /
-removed / left alone / filled with garbage / truncated; the process exits with a code or dies by a signal; <name>.lst well-formed / missing / malformed in four ways. Everything
-happens in a tempfile.mkdtemp() directory outside the worktrees, removed afterwards; printing is suppressed.
+removed / left alone / filled with garbage / truncated / laid out as SHELXL lays a result out (its own lines after TITL,
+REM lines, Q-peaks after END); the process exits with a code or dies by a signal; <name>.lst well-formed (ASCII, 8-bit
+code page, CRLF) / missing / a directory / malformed in seven ways (bytes included); what the program PRINTS (banner, a
+whole run's output, nothing, 8-bit bytes, binary, a malformed R1 line, 'CANNOT OPEN FILE hkl'). The stand-in uses shell
+builtins only (one process per run). Everything happens in a tempfile.mkdtemp() directory outside the worktrees (on
+/dev/shm when there is one), removed afterwards; printing is suppressed.
+
+The FILE the user starts from varies in what `write_shelx_file()` does not write back line by line (blank lines,
+continuation lines, a second SFAC/FVAR line, SHELXL's own header lines, REM lines, Q-peaks): the list in memory before
+the run and the list after the reload then differ in length above and below UNIT.
 
 Streams (DESIGN 3.2):
   protocol   implementation vs model (`refine Fix.all` in ShelxModel/C19.lean): .res/.shx-bak by content, the .ins parsed
@@ -13,7 +21,8 @@ Streams (DESIGN 3.2):
   property   implementation vs `specStep` (clauses ins / res / bak / mem), evaluated by the driver on the OBSERVED states
 Observables: content identity (sha) of <name>.res, .ins, .shx-bak, shxsaves/* before and after each call and at the
 moment SHELXL runs; the .ins parsed (ACTA absent, cycle number, everything else); `shx.acta` and its index relative to
-UNIT; whether `refine()` raised (the class is not compared: the property does not say how failure is signalled).
+UNIT; the in-memory line list by keyword (`lay`: the lines of the new result, ACTA directly after UNIT); whether
+`refine()` raised (the class is not compared: the property does not say how failure is signalled).
 """
 import contextlib
 import hashlib
@@ -29,31 +38,54 @@ NAME = 'c19job'
 
 STANDIN = r'''#!/bin/sh
 # scripted stand-in for SHELXL (verification harness C19) -- Version 2019/3
+# shell builtins only (one process per run); payloads arrive as printf formats in ./c19_outcome
 n="$2"
 [ -z "$n" ] && n="$1"
 . ./c19_outcome
-mkdir -p c19_log
-cp "$n.ins" "c19_log/ins_$RUN" 2>/dev/null
-cp "$n.shx-bak" "c19_log/bak_$RUN" 2>/dev/null
+cpf() {   # byte-exact copy of a file without NUL bytes
+  while IFS= read -r l; do printf '%s\n' "$l"; done < "$1" > "$2"
+  printf '%s' "$l" >> "$2"
+}
+[ -f "$n.ins" ] && cpf "$n.ins" "c19_log/ins_$RUN"
+[ -f "$n.shx-bak" ] && cpf "$n.shx-bak" "c19_log/bak_$RUN"
 : > "c19_log/ran_$RUN"
-echo " +  Copyright(C) George M. Sheldrick 1993-2019     Version 2019/3  +"
-rm -f "$n.lst"
+printf "$CON"
+atom="C9$RUN   1   0.5${RUN}0000   0.500000   0.250000   11.00000    0.04000"
 case "$RES" in
-  good) sed "/^HKLF/i C9$RUN   1   0.5${RUN}0000   0.500000   0.250000   11.00000    0.04000" "$n.ins" > "$n.res" ;;
+  good)
+    while IFS= read -r l; do
+      case "$l" in HKLF*) printf '%s\n' "$atom" ;; esac
+      printf '%s\n' "$l"
+    done < "$n.ins" > "$n.res" ;;
+  relaid)   # the way SHELXL lays a result out: its own two lines after TITL, REM lines, suggestions and peaks after END
+    while IFS= read -r l; do
+      case "$l" in
+        HKLF*) printf '%s\n' "$atom" ;;
+        END*) printf '\nREM  %s in P1\nREM wR2 = 0.1000, GooF = S = 1.081, Restrained GooF = 1.081 for all data\n\n' "$n" ;;
+      esac
+      printf '%s\n' "$l"
+      case "$l" in
+        TITL*) printf '    %s.res\n    created by SHELXL-2019/3 at 12:00:0%s on 01-Jan-2020\n' "$n" "$RUN" ;;
+        END*) printf '\nWGHT      0.0500      0.1000\n\nREM Highest difference peak  0.5,  deepest hole -0.4,  1-sigma level  0.08\nQ1    1   0.1000  0.2000  0.3000  11.00000  0.05    0.50\n' ;;
+      esac
+    done < "$n.ins" > "$n.res" ;;
   empty) : > "$n.res" ;;
   missing) rm -f "$n.res" ;;
   garbage) printf 'TITL\n** crashed while writing **\n\n' > "$n.res" ;;
-  truncated) head -c 300 "$n.ins" > "$n.res" ;;
+  truncated)   # stops in the middle of the seventh line
+    i=0
+    while IFS= read -r l; do
+      i=$((i+1))
+      if [ $i -ge 7 ]; then printf '%s' "${l%???}"; break; fi
+      printf '%s\n' "$l"
+    done < "$n.ins" > "$n.res" ;;
   untouched) ;;
 esac
-[ "$RES" != untouched ] && cp "$n.res" "c19_log/res_$RUN" 2>/dev/null
+[ "$RES" != untouched ] && [ -f "$n.res" ] && cpf "$n.res" "c19_log/res_$RUN"
 case "$LST" in
-  good) cp c19_lst_good "$n.lst" ;;
-  short) printf ' Final Structure Factor Calculation for  x  in P-1\n\n' > "$n.lst" ;;
-  empty) : > "$n.lst" ;;
-  nofinal) printf ' one\n two\n three\n four\n five\n six\n' > "$n.lst" ;;
-  nolatt) grep -v LATT c19_lst_good > "$n.lst"; printf '\n' >> "$n.lst" ;;
-  missing) ;;
+  -) ;;
+  DIR) mkdir "$n.lst" ;;
+  *) printf "$LST" > "$n.lst" ;;
 esac
 if [ "$EXIT" -lt 0 ]; then
   kill "$EXIT" $$          # death by signal: subprocess reports the negative signal number
@@ -74,13 +106,66 @@ LST_GOOD = ''' LATT  -1
  R1 =  0.0400 for    1800 Fo > 4sig(Fo)  and  0.0500 for all    2000 data
 '''
 
-#: .lst variants by what `check_refinement_results` does with them on the tree as found
-LST_CLASS = dict(good='good', missing='missing', short='raises', empty='raises', nolatt='raises', nofinal='quiet')
+#: <name>.lst as bytes (None: no file; 'DIR': a directory of that name)
+LST_BYTES = dict(
+    good=LST_GOOD.encode(),
+    missing=None,
+    short=b' Final Structure Factor Calculation for  x  in P-1\n\n',
+    empty=b'',
+    nofinal=b' one\n two\n three\n four\n five\n six\n',
+    nolatt=LST_GOOD.replace(' LATT  -1\n', '').encode() + b'\n',
+    # SHELXL writes the Angstrom and degree signs and copies TITL in the local 8-bit code page
+    latin1=(' TITL Verbindung f\xfcr M\xfcller in P-1\n Wavelength 0.71073 \xc5, beta = 94.13\xb0\n' + LST_GOOD).encode('latin1'),
+    binary=bytes(range(256)) * 2 + b'\n Final Structure Factor Calculation \xff\xfe\n',
+    crlf=LST_GOOD.replace('\n', '\r\n').encode(),
+    zeroparam=LST_GOOD.replace('100 /    100 parameters', '100 /      0 parameters').encode(),      # division by zero
+    lowratio=LST_GOOD.replace('2000 data and', ' 300 data and').replace(' LATT  -1', ' LATT  1').encode(),  # prints the warning
+    dir='DIR')
+#: .lst variants by what `check_refinement_results` does with them on the tree as found (only the legacy model looks)
+LST_CLASS = dict(good='good', missing='missing', short='raises', empty='raises', nolatt='raises', nofinal='quiet',
+                 latin1='good', binary='raises', crlf='good', zeroparam='quiet', lowratio='good', dir='missing')
+LST_MAIN = ['good', 'missing', 'short', 'latin1']
+LST_MORE = [k for k in LST_BYTES if k not in LST_MAIN]
+
+BANNER = b' +  Copyright(C) George M. Sheldrick 1993-2019     Version 2019/3  +\n'
+#: what the program prints (stdout and stderr go through one pipe into `pretty_shx_output`)
+CON_BYTES = dict(
+    banner=BANNER,
+    silent=b'',
+    rich=(b' ++++++++++++++++++++++++++++++++++++++++++++++++++++++++++++++++++++\n' + BANNER +
+          b' +  c19job             started at 12:00:00 on 01-Jan-2020           +\n\n  Read instructions and data\n'
+          b' ** Cell contents from UNIT instruction and atom list do not agree **\n'
+          b' ** Extinction (EXTI) or solvent water (SWAT) correction may be required **\n'
+          b' ** CANNOT RESOLVE RIGU C1 > C9 **\n ** MERG code changed to 0 **\n ** Bond(s) to C1 ignored **\n'
+          b' wR2 =  0.1000 before cycle   1 for    2000 data and    100 /    100 parameters\n'
+          b' GooF = S =     1.081;     Restrained GooF =      1.081 for       0 restraints\n'
+          b' R1 =  0.0400 for    1800 Fo > 4sig(Fo)  and  0.0500 for all    2000 data\n'
+          b' +  c19job             finished at 12:00:01   Total elapsed time: 1.00 secs  +\n'),
+    latin1=BANNER + b' ** Bond to C1 ignored: d = 1.54 \xc5, angle 109.5\xb0 **\n',          # 8-bit code page
+    binary=BANNER + bytes(range(1, 256)) + b'\n',
+    shortr1=BANNER + b' R1 =\n',                                                              # a line cut short
+    hkl=BANNER + b' ** CANNOT OPEN FILE c19job.hkl **\n')
+#: by what the output filter does with it on the tree as found: nothing / raises an exception / sys.exit() ('no hkl')
+CON_CLASS = dict(banner='plain', silent='plain', rich='plain', latin1='raises', binary='raises', shortr1='raises', hkl='nohkl')
+CON_MORE = [k for k in CON_BYTES if k != 'banner']
+
 #: how the program ends (`Popen.returncode`): 0, small and large exit codes, death by signal (negative: SEGV, KILL, ABRT, TERM)
 EXIT_MAIN = [0, 1, -11]
 EXIT_MORE = [3, 127, 255, -9, -6, -15]
-RES_OK = ['good', 'empty', 'missing']                         # with status 0 (a partly written file is not detectable)
-RES_ALL = ['good', 'empty', 'missing', 'untouched', 'garbage', 'truncated']
+RES_OK = ['good', 'relaid', 'empty', 'missing']               # with status 0 (a partly written file is not detectable)
+RES_ALL = ['good', 'relaid', 'empty', 'missing', 'untouched', 'garbage', 'truncated']
+#: one of each class of outcome: good, status, empty, missing, signal + partial result
+CORE_OUT = [(0, 'good'), (0, 'relaid'), (1, 'good'), (0, 'empty'), (0, 'missing'), (-11, 'truncated')]
+
+
+_FORMATS = {}
+
+
+def printf_format(data):
+    """bytes as a printf(1) format: every byte an octal escape"""
+    if data not in _FORMATS:
+        _FORMATS[data] = ''.join('\\%03o' % c for c in data)
+    return _FORMATS[data]
 
 
 def exitres(exits):
@@ -91,17 +176,57 @@ EXITRES = exitres(EXIT_MAIN)
 STALE = 'TITL an old backup of something else\nCELL 0.71073 5 5 5 90 90 90\nEND\n'
 
 
-def file_text(f):
+#: what the user's file contains that `write_shelx_file()` does not write back line by line. Each entry: a list of edits
+#: (anchor keyword, 'before'/'after'/'replace', lines). In memory a blank line, a continuation line and a second
+#: SFAC/FVAR line are list entries of their own; in the .ins (and in the result SHELXL derives from it) they are gone.
+LAYOUTS = {
+    'plain': [],
+    'blank_zerr': [('ZERR', 'after', [''])],
+    'blank_sfac': [('SFAC', 'after', [''])],
+    'blank_unit': [('UNIT', 'after', [''])],
+    'blank_many': [('TITL', 'after', ['']), ('LATT', 'before', ['', '']), ('UNIT', 'after', ['']), ('FVAR', 'before', ['']),
+                   ('END', 'after', ['', ''])],
+    'sfac_cont': [('SFAC', 'replace', ['SFAC C H =', ' O'])],
+    'sfac_two': [('SFAC', 'replace', ['SFAC C H', 'SFAC O'])],
+    'created': [('TITL', 'after', ['    c19job.res', '    created by SHELXL-2018/3 at 14:58:45 on 14-Dec-2018', 'REM a remark']),
+                ('END', 'after', ['', 'WGHT      0.0490      0.0000', '',
+                                  'REM Highest difference peak  0.4,  deepest hole -0.3,  1-sigma level  0.07',
+                                  'Q1    1   0.1000  0.2000  0.3000  11.00000  0.05    0.40'])],
+    'symm': [('LATT', 'replace', ['LATT 1', 'SYMM -X, 0.5+Y, 0.5-Z', 'SYMM -X, -Y, -Z'])],
+    'cont_after': [('BOND', 'replace', ['CONF C1 C2 =', '   C3 C4', 'BOND'])],
+    'mix': [('ZERR', 'after', ['']), ('SFAC', 'replace', ['SFAC C H =', ' O', '']), ('UNIT', 'after', ['', 'REM after unit']),
+            ('BOND', 'replace', ['CONF C1 C2 =', '   C3 C4', '', 'BOND']), ('HKLF', 'before', [''])],
+}
+LAYOUT_NAMES = list(LAYOUTS)
+
+
+def file_lines(f):
     fs = gen.FileSpec(fvars=[round(0.5 + 0.01 * i, 5) for i in range(f['nfv'])])
     ls = f.get('ls') or ['CGLS' if f['cgls'] else 'L.S.', 10]
     head = [' '.join(str(t) for t in ls), 'BOND', 'FMAP 2', 'PLAN 20', 'WGHT 0.1 0.2']
+    acta = f.get('acta_text') or 'ACTA 50'
     if f['acta'] == 'after_unit':
-        head.insert(0, f.get('acta_text') or 'ACTA 50')
+        head.insert(0, acta)
     elif f['acta'] == 'later':
-        head.insert(2, f.get('acta_text') or 'ACTA 50')
+        head.insert(2, acta)
+    elif f['acta'] == 'last':                      # the last instruction before FVAR
+        head.append(acta)
     fs.header = head
     fs.body = [gen.AtomSpec(f'C{i}', 1, (0.1 * i, 0.2, 0.3), 11.0, (0.03,)) for i in range(1, 5)]
-    return fs.text()
+    lines = fs.lines()
+    for anchor, how, add in LAYOUTS[f.get('lay') or 'plain']:
+        i = next(k for k, ln in enumerate(lines) if ln.startswith(anchor))
+        if how == 'after':
+            lines[i + 1:i + 1] = add
+        elif how == 'before':
+            lines[i:i] = add
+        else:
+            lines[i:i + 1] = add
+    return lines
+
+
+def file_text(f):
+    return '\n'.join(file_lines(f)) + '\n'
 
 
 def sha(b):
@@ -114,6 +239,10 @@ def read(path):
             return fh.read()
     except OSError:
         return None
+
+
+#: parse results by content (the parser is a function of the text; a fresh object is used for every text)
+_PARSED = {}
 
 
 class Labels:
@@ -136,22 +265,57 @@ class Labels:
         if h not in self.by_sha:
             lab = f'{hint}{len(self.by_sha)}'
             self.by_sha[h] = lab
-            self.table[lab] = dict(label=lab, size=len(data), doc=self.parse(data), dow=dow_of(data))
+            doc, lay = self.parse2(data)
+            self.table[lab] = dict(label=lab, size=len(data), doc=doc, dow=dow_of(data), lay=lay)
         return self.by_sha[h]
 
+    def parse2(self, data):
+        """(document, line list) of a file's content; ACTA texts numbered per case"""
+        h = hashlib.sha1(data).digest()
+        if h not in _PARSED:
+            from shelxfile import Shelxfile
+            shx = Shelxfile()
+            with contextlib.redirect_stdout(io.StringIO()):
+                try:
+                    shx.read_string(data.decode('latin1'))
+                except BaseException:
+                    pass
+            raw = Labels()
+            _PARSED[h] = (doc_of(shx, raw, data), lay_of(shx, raw), raw.texts)
+        doc, lay, texts = _PARSED[h]
+        ren = {i: self.acta_id(t) for i, t in enumerate(texts)}
+        if doc['acta'] is not None:
+            doc = dict(doc, acta=dict(doc['acta'], text=ren[doc['acta']['text']]))
+        return doc, [ACTA_MARK + str(ren[int(t[len(ACTA_MARK):])]) if t.startswith(ACTA_MARK) else t for t in lay]
+
     def parse(self, data):
-        from shelxfile import Shelxfile
-        shx = Shelxfile()
-        with contextlib.redirect_stdout(io.StringIO()):
-            try:
-                shx.read_string(data.decode('latin1'))
-            except BaseException:
-                pass
-        return doc_of(shx, self, data)
+        return self.parse2(data)[0]
 
     def raw(self, data, hint='x'):
         lab = self.label(data, hint)
         return None if lab is None else dict(raw=lab)
+
+
+UNIT_MARK = '@UNIT'
+ACTA_MARK = '@ACTA:'
+
+
+def lay_of(shx, labels):
+    """the line list of the object, by keyword: the entry that is `shx.unit`, the entry that is `shx.acta` (with the id of
+    its text), '' for an entry that prints as nothing, else the first word (upper case, four characters)"""
+    out = []
+    try:
+        for e in shx._reslist:
+            if e is shx.unit:
+                out.append(UNIT_MARK)
+            elif shx.acta is not None and e is shx.acta:
+                out.append(ACTA_MARK + str(labels.acta_id(' '.join(str(e).split()))))
+            else:
+                w = str(e).split()
+                out.append(w[0].upper()[:4] if w else '')
+    except Exception:
+        return ['?']
+    return out
 
 
 def dow_of(data):
@@ -188,7 +352,10 @@ def doc_of(shx, labels, data=None):
         acta = None
         if shx.acta is not None:
             acta = dict(text=labels.acta_id(' '.join(str(shx.acta).split())), off=shx.index_of(shx.acta) - shx.index_of(shx.unit))
-        atoms = [(a.name, a.sfac_num, round(a.x, 5), round(a.y, 5), round(a.z, 5), round(a.sof, 5), [round(u, 5) for u in a.uvals])
+        # Q-peaks without their U and at the precision they are printed with (known finding of C01: golden files pin it)
+        atoms = [(a.name, a.sfac_num, round(a.x, 4), round(a.y, 4), round(a.z, 4), round(a.sof, 5), [round(u, 2) for u in a.uvals[1:2]])
+                 if getattr(a, 'qpeak', False) else
+                 (a.name, a.sfac_num, round(a.x, 5), round(a.y, 5), round(a.z, 5), round(a.sof, 5), [round(u, 5) for u in a.uvals])
                  for a in shx.atoms.all_atoms]
         rest = (atoms, [round(f.fvar_value, 5) for f in shx.fvars.fvars],
                 [float(v) for v in shx.unit.values], [e.upper() for e in shx.sfac_table.elements_list],
@@ -213,7 +380,7 @@ def observe(shx, labels, pre_res):
     ins = read(NAME + '.ins')
     return dict(fs=dict(res=labels.raw(read(NAME + '.res'), 'r'), ins=None if ins is None else dict(written=labels.parse(ins)),
                         bak=labels.raw(read(NAME + '.shx-bak'), 'b'), hkl=os.path.exists(NAME + '.hkl'), saves=saves),
-                mem=dict(doc=doc_of(shx, labels), dow=False, skew=0))
+                mem=dict(doc=doc_of(shx, labels), dow=False, skew=0, lay=lay_of(shx, labels)))
 
 
 def play(case, bindir, root):
@@ -236,8 +403,7 @@ def play(case, bindir, root):
         if case.get('stale_bak'):
             with open(NAME + '.shx-bak', 'w') as fh:
                 fh.write(STALE)
-        with open('c19_lst_good', 'w') as fh:
-            fh.write(LST_GOOD)
+        os.mkdir('c19_log')
         out = io.StringIO()
         with contextlib.redirect_stdout(out):
             shx = Shelxfile()
@@ -250,8 +416,15 @@ def play(case, bindir, root):
                 if rec is not None:
                     steps.append(dict(rec, item=call, k=k))
                 continue
+            lst = LST_BYTES[call['lst']]
             with open('c19_outcome', 'w') as fh:
-                fh.write(f'EXIT={call["exit"]}\nRES={call["res"]}\nLST={call["lst"]}\nRUN={k}\n')
+                fh.write(f'EXIT={call["exit"]}\nRES={call["res"]}\nRUN={k}\n'
+                         f"LST='{'-' if lst is None else lst if lst == 'DIR' else printf_format(lst)}'\n"
+                         f"CON='{printf_format(CON_BYTES[call.get('con', 'banner')])}'\n")
+            if os.path.isdir(NAME + '.lst'):          # the list file of the run before: SHELXL starts a new one
+                os.rmdir(NAME + '.lst')
+            elif os.path.exists(NAME + '.lst'):
+                os.remove(NAME + '.lst')
             pre_res = labels.raw(read(NAME + '.res'), 'r')
             raised = None
             ret = None
@@ -321,7 +494,8 @@ def request(case, labels, init, steps):
             rs.append(dict(op='load', write=rec['write'], obs=dict(st=rec['obs'])))
             continue
         rs.append(dict(cycles=call['cycles'], backup=call['backup'], exit=call['exit'], res=rec['res_out'],
-                       lst=LST_CLASS[call['lst']], obs=dict(st=rec['obs'], raised=rec['raised'] is not None)))
+                       lst=LST_CLASS[call['lst']], con=CON_CLASS[call.get('con', 'banner')],
+                       obs=dict(st=rec['obs'], raised=rec['raised'] is not None)))
     return dict(p='C19', op='seq', table=list(labels.table.values()), init=init, steps=rs)
 
 
@@ -339,6 +513,8 @@ def evaluate(ctx, cases, stream=None):
     ctx.stream('protocol')
     ctx.stream('property')
     core_root = tempfile.mkdtemp(prefix='c19_')
+    shm = '/dev/shm'      # the working directories on a memory file system when there is one: thousands come and go
+    work_root = tempfile.mkdtemp(prefix='c19_', dir=shm) if os.path.isdir(shm) and os.access(shm, os.W_OK) else core_root
     try:
         bindir = os.path.join(core_root, 'bin')
         os.mkdir(bindir)
@@ -346,12 +522,18 @@ def evaluate(ctx, cases, stream=None):
         with open(exe, 'w') as fh:
             fh.write(STANDIN)
         os.chmod(exe, 0o755)
-        played = [play(case, bindir, core_root) for case in cases]
+        played = [play(case, bindir, work_root) for case in cases]
     finally:
         shutil.rmtree(core_root, ignore_errors=True)
+        shutil.rmtree(work_root, ignore_errors=True)
     answers = ctx.driver.batch([request(case, *p) for case, p in zip(cases, played)])
     for case, (labels, init, steps), ans in zip(cases, played, answers):
         judge(ctx, case, init, steps, ans)
+
+
+def squeeze(lay):
+    """the line list without the entries that print as nothing (the comparison does not depend on placeholders)"""
+    return None if lay is None else [t for t in lay if t != '']
 
 
 def judge(ctx, case, init, steps, ans):
@@ -366,6 +548,8 @@ def judge(ctx, case, init, steps, ans):
             mst = mod['st']
             diffs = [(key, a, b) for key, a, b in (('res', mst['fs']['res'], obs['fs']['res']),
                                                    ('mem', mst['mem']['doc'], obs['mem']['doc']),
+                                                   ('lines', squeeze(mod.get('lay')),
+                                                    squeeze(obs['mem']['lay']) if mod.get('lay') is not None else None),
                                                    ('raised', mod['exc'] is not None, rec['raised'] is not None)) if a != b]
             ctx.count(['call', sub], nontrivial=False, tags=[f'between={call["op"]}'])
             if diffs:
@@ -380,15 +564,20 @@ def judge(ctx, case, init, steps, ans):
         acta = 'present' if pre['mem']['doc']['acta'] else 'absent'       # in the model right before this call
         oc = outcome_class(call, spec)
         where = f'{oc}|lst={call["lst"]}|backup={"on" if call["backup"] else "off"}|acta={acta}'
+        if call.get('con', 'banner') != 'banner':
+            where += f'|prints={call["con"]}'
         hyp = mod['hyp']
         inside = hyp['plausible']
+        # the property's split into failed / succeeded applies (observed state); outside it only the model is compared
+        dom = spec['plausible']
         if inside and not mod['meets_spec']:
             raise RuntimeError(f'C19: model differs from spec inside the hypotheses of history_meets_spec: {sub}')
         mst = mod['st']
         base = dict(case=sub, step=k, call=call, observed=dict(obs=obs, raised=rec['raised'], ret=rec['ret'], ran=rec['ran']),
                     model=dict(st=mst, exc=mod['exc']), spec=spec, pre=pre)
         tags = [f'outcome={oc}', f'lst={call["lst"]}', f'backup={call["backup"]}', f'acta={acta}', f'step={k}',
-                f'cycles={"keep" if call["cycles"] is None else "set"}', f'raised={rec["raised"]}']
+                f'cycles={"keep" if call["cycles"] is None else "set"}', f'raised={rec["raised"]}',
+                f'con={call.get("con", "banner")}', f'layout={f.get("lay") or "plain"}', f'acta_at={f["acta"]}']
         ctx.count(['call', sub], nontrivial=rec['ran'], tags=tags,
                   sample=dict(stream='protocol', calls=sub['calls'], acta=f['acta'], raised=rec['raised'],
                               res_after=obs['fs']['res'], bak_after=obs['fs']['bak'], mem_acta=obs['mem']['doc']['acta'])
@@ -401,19 +590,19 @@ def judge(ctx, case, init, steps, ans):
             ctx.fail(sig, f'the .ins handed to SHELXL is not the current model without ACTA and with cycles '
                           f'{spec["want_ins"]["cycles"]}: parsed back it is {got}, expected {spec["want_ins"]} '
                           f'(call {k + 1}: {call})', dict(base, stream='property', expected=spec['want_ins'], actual=got))
-        if not spec['res']:
+        if dom and not spec['res']:
             clause = 'restore' if (spec['failed'] and call['backup']) else 'stale' if spec['failed'] else 'result'
             ctx.fail(f'C19|{clause}|{where}',
                      f'call {k + 1} ({call}, SHELXL {"failed" if spec["failed"] else "succeeded"}): <name>.res is '
                      f'{obs["fs"]["res"]} afterwards; before the run it was {pre["fs"]["res"]}, SHELXL left {rec["res_out"]}',
                      dict(base, stream='property', expected='pre-run content' if spec['failed'] and call['backup'] else
                           'pre-run content or what SHELXL left' if spec['failed'] else 'what SHELXL left', actual=obs['fs']['res']))
-        if not spec['bak'] or (rec['ran'] and call['backup'] and rec['bak_at_run'] != rec['pre_res']):
+        if (dom and not spec['bak']) or (rec['ran'] and call['backup'] and rec['bak_at_run'] != rec['pre_res']):
             ctx.fail(f'C19|backup|{where}',
                      f'call {k + 1} ({call}): no byte-identical backup of the pre-run .res ({rec["pre_res"]}) at run time '
                      f'({rec["bak_at_run"]}) / in shxsaves ({obs["fs"]["saves"]}) / beside a good result ({obs["fs"]["bak"]})',
                      dict(base, stream='property', expected=rec['pre_res'], actual=dict(at_run=rec['bak_at_run'], after=obs['fs'])))
-        if not spec['mem']:
+        if dom and not spec['mem']:
             ok_run = spec['started'] and not spec['failed']
             clause = 'reload' if ok_run else 'memory'
             ctx.fail(f'C19|{clause}|{where}',
@@ -423,6 +612,13 @@ def judge(ctx, case, init, steps, ans):
                                                    f'after a run that did not complete refine() raised {rec["raised"]} and the object is '
                                                    f'{obs["mem"]["doc"]}; it was {pre["mem"]["doc"]}'),
                      dict(base, stream='property', expected=spec['want_doc'] if ok_run else pre['mem']['doc'], actual=obs['mem']['doc']))
+        if dom and spec.get('lines') is False:
+            ok_run = spec['started'] and not spec['failed']
+            ctx.fail(f'C19|lines|{where}',
+                     f'call {k + 1} ({call}): the lines in memory are {squeeze(obs["mem"]["lay"])}; expected ' +
+                     ('those of the new result' if ok_run else f'those the object had ({squeeze(pre["mem"]["lay"])})') +
+                     (' with the ACTA card directly after UNIT' if acta == 'present' else ''),
+                     dict(base, stream='property', expected=squeeze(mod.get('lay')), actual=squeeze(obs['mem']['lay'])))
         if spec['started'] != rec['ran']:
             ctx.fail(f'C19|started|{where}', f'call {k + 1}: SHELXL {"was" if rec["ran"] else "was not"} started, '
                                               f'specification says started={spec["started"]}', dict(base, stream='property'))
@@ -442,6 +638,8 @@ def judge(ctx, case, init, steps, ans):
             diffs.append(('raised', mod['exc'], rec['raised']))
         if mst['mem']['doc'] != obs['mem']['doc']:
             diffs.append(('mem', mst['mem']['doc'], obs['mem']['doc']))
+        if mod.get('lay') is not None and squeeze(mod['lay']) != squeeze(obs['mem']['lay']):
+            diffs.append(('lines', squeeze(mod['lay']), squeeze(obs['mem']['lay'])))
         msaved = bool(mst['fs']['saves']) and rec['pre_res'] is not None and mst['fs']['saves'][0] == rec['pre_res'] \
             and spec['started'] and call['backup']
         osaved = rec['pre_res'] in obs['fs']['saves'] if spec['started'] and call['backup'] else msaved
@@ -455,14 +653,23 @@ def judge(ctx, case, init, steps, ans):
         pre = obs
 
 
-def mk_file(acta, nfv=3, cgls=False, ls=None, acta_text=None):
+def mk_file(acta, nfv=3, cgls=False, ls=None, acta_text=None, lay=None):
     f = dict(acta=acta, nfv=nfv, cgls=cgls)
     if ls:
         f['ls'] = ls
         f['cgls'] = ls[0] == 'CGLS'
     if acta_text:
         f['acta_text'] = acta_text
+    if lay and lay != 'plain':
+        f['lay'] = lay
     return f
+
+
+def mk_call(exit, res, lst='good', backup=True, cycles=None, con='banner'):
+    c = dict(exit=exit, res=res, lst=lst, backup=backup, cycles=cycles)
+    if con != 'banner':
+        c['con'] = con
+    return c
 
 
 #: every parameter form of the instruction: n; n nrf; n nrf nextra; zeros and a negative nrf in each slot; both keywords
@@ -471,77 +678,121 @@ LS_FORMS = [['L.S.', 10], ['L.S.', 10, 2], ['L.S.', 10, 0, 54], ['L.S.', 10, 3, 
             ['CGLS', 0, 0, 7], ['CGLS', 8, 4]]
 
 
-def ls_cases():
+def ls_cases(thorough):
     """the .ins is the model with ONLY the cycle number changed: every form of L.S./CGLS x cycles given / not given,
     over two calls (what the first call leaves in the object is what the second one writes)"""
     out = []
     ok = dict(exit=0, res='good', lst='good', backup=True)
     bad = dict(exit=1, res='good', lst='good', backup=True)
-    for i, (ls, cyc, acta) in enumerate(itertools.product(LS_FORMS, [None, 0, 7], ['none', 'later'])):
-        first = dict(ok if i % 3 else bad, cycles=cyc)
-        out.append(dict(file=mk_file(acta, ls=ls), stale_bak=False, hkl=True,
-                        calls=[first, dict(ok, cycles=None if cyc is not None else 3)]))
+    for i, (ls, cyc) in enumerate(itertools.product(LS_FORMS, [None, 0, 7])):
+        for acta in (['none', 'later'] if thorough else [['none', 'later'][i % 2]]):
+            first = dict(ok if i % 3 else bad, cycles=cyc)
+            out.append(dict(file=mk_file(acta, ls=ls, lay=LAYOUT_NAMES[i % len(LAYOUT_NAMES)] if i % 4 == 1 else None),
+                            stale_bak=False, hkl=True, calls=[first, dict(ok, cycles=None if cyc is not None else 3)]))
+    return out
+
+
+def layout_cases(thorough):
+    """every shape of the user's file x every place of ACTA x one outcome of each kind, then a good run on the same
+    object: the list in memory before a run and the list after the reload differ in length above / below UNIT"""
+    out = []
+    outs = CORE_OUT if thorough else [(0, 'good'), (1, 'good'), (0, 'empty')]
+    for i, (lay, acta, (ex, res)) in enumerate(itertools.product(LAYOUT_NAMES, ['later', 'after_unit', 'last'], outs)):
+        for backup in ([True, False] if thorough else [i % 4 != 3]):
+            second = mk_call(0, 'relaid' if i % 2 else 'good', backup=backup, cycles=5)
+            out.append(dict(file=mk_file(acta, nfv=9 if i % 5 == 2 else 3, lay=lay), stale_bak=False, hkl=True,
+                            calls=[mk_call(ex, res, backup=backup, cycles=[4, None][i % 2]), second]))
+    for i, lay in enumerate(LAYOUT_NAMES):     # and a model without ACTA
+        out.append(dict(file=mk_file('none', lay=lay), stale_bak=False, hkl=True,
+                        calls=[mk_call(*outs[i % len(outs)], cycles=4), mk_call(0, 'good')]))
+    return out
+
+
+def console_cases(thorough):
+    """whatever the program prints x one outcome of each kind"""
+    out = []
+    for i, (con, (ex, res), backup) in enumerate(itertools.product(CON_MORE, CORE_OUT, [True, False])):
+        for acta in (['none', 'later'] if thorough else [['later', 'none', 'after_unit'][i % 3]]):
+            out.append(dict(file=mk_file(acta), stale_bak=(i % 4 == 1), hkl=True,
+                            calls=[mk_call(ex, res, lst=LST_MAIN[i % len(LST_MAIN)], backup=backup, cycles=[None, 6][i % 2], con=con)]))
     return out
 
 
 BETWEEN = [dict(op='reload'),
            dict(op='reread', file=mk_file('none', nfv=4)),
-           dict(op='reread', file=mk_file('later', nfv=4, acta_text='ACTA 45')),
-           dict(op='reread', file=mk_file('after_unit', nfv=5, ls=['L.S.', 6, 0, 12]))]
+           dict(op='reread', file=mk_file('later', nfv=4, acta_text='ACTA 45', lay='blank_sfac')),
+           dict(op='reread', file=mk_file('after_unit', nfv=5, ls=['L.S.', 6, 0, 12], lay='sfac_cont'))]
 BETWEEN_OUT = [(0, 'good', 'good'), (1, 'good', 'good'), (0, 'empty', 'good'), (-11, 'truncated', 'missing')]
 
 
-def between_cases(rng, thorough):
+def between_cases(rng, thorough, n_long):
     """one object, refine() - the user re-reads the model (with / without ACTA, another ACTA) - refine() again:
     what a call does depends on the model as it is right before it and on nothing an earlier call kept"""
     out = []
     n = 0
-    for a, op, b, acta in itertools.product(BETWEEN_OUT, BETWEEN, BETWEEN_OUT, ['later', 'none']):
-        for backs in ([(True, True), (True, False), (False, True), (False, False)] if thorough else [(True, n % 2 == 0)]):
-            n += 1
-            c1 = dict(exit=a[0], res=a[1], lst=a[2], backup=backs[0], cycles=4)
-            c2 = dict(exit=b[0], res=b[1], lst=b[2], backup=backs[1], cycles=None)
-            out.append(dict(file=mk_file(acta), stale_bak=False, hkl=True, calls=[c1, op, c2]))
-    for _ in range(120 if thorough else 30):     # longer ones: call, re-read, call, re-read, call
+    for i, (a, op, b) in enumerate(itertools.product(BETWEEN_OUT, BETWEEN, BETWEEN_OUT)):
+        for acta in (['later', 'none'] if thorough else [['later', 'none', 'later', 'last'][i % 4]]):
+            for backs in ([(True, True), (True, False), (False, True), (False, False)] if thorough else [(True, n % 2 == 0)]):
+                n += 1
+                c1 = dict(exit=a[0], res=a[1], lst=a[2], backup=backs[0], cycles=4)
+                c2 = dict(exit=b[0], res=b[1], lst=b[2], backup=backs[1], cycles=None)
+                out.append(dict(file=mk_file(acta, lay='blank_zerr' if i % 3 == 0 else None), stale_bak=False, hkl=True,
+                                calls=[c1, op, c2]))
+    for _ in range(n_long):     # longer ones: call, re-read, call, re-read, call
         calls = []
         for j in range(3):
             o = rng.choice(BETWEEN_OUT)
             calls.append(dict(exit=o[0], res=o[1], lst=o[2], backup=rng.random() < 0.7, cycles=rng.choice([None, 2, 9])))
             if j < 2:
                 calls.append(rng.choice(BETWEEN))
-        out.append(dict(file=mk_file(rng.choice(['later', 'none', 'after_unit'])), stale_bak=False, hkl=True, calls=calls))
+        out.append(dict(file=mk_file(rng.choice(['later', 'none', 'after_unit']), lay=rng.choice(LAYOUT_NAMES)),
+                        stale_bak=False, hkl=True, calls=calls))
     return out
 
 
-def singles():
-    """the whole finite grid of the quantifier for one call"""
+def singles(thorough):
+    """the finite grid of the quantifier for one call (quick: every pair of dimensions, the rest rotating)"""
     out = []
-    for (ex, res), lst, backup, acta, cyc in itertools.product(EXITRES, list(LST_CLASS), [True, False],
-                                                                 ['none', 'later'], [None, 0, 7]):
-        i = len(out)
-        out.append(dict(file=mk_file(acta, cgls=(i % 5 == 0)), stale_bak=(i % 2 == 1), hkl=True,
-                        calls=[dict(exit=ex, res=res, lst=lst, backup=backup, cycles=cyc)]))
+    cyc3 = [None, 0, 7]
+    both = [True, False]
+    # outcome x list file x backup x ACTA (x cycles)
+    if thorough:
+        for (ex, res), lst, backup, acta, cyc in itertools.product(EXITRES, list(LST_BYTES), both, ['none', 'later'], cyc3):
+            i = len(out)
+            out.append(dict(file=mk_file(acta, cgls=(i % 5 == 0)), stale_bak=(i % 2 == 1), hkl=True,
+                            calls=[mk_call(ex, res, lst, backup, cyc)]))
+    else:
+        for (ex, res), lst, backup, acta in itertools.product(EXITRES, LST_MAIN, both, ['none', 'later']):
+            i = len(out)
+            out.append(dict(file=mk_file(acta, cgls=(i % 5 == 0)), stale_bak=(i % 2 == 1), hkl=True,
+                            calls=[mk_call(ex, res, lst, backup, cyc3[i % 3])]))
+        for lst, (ex, res), backup in itertools.product(LST_MORE, CORE_OUT, both):
+            i = len(out)
+            out.append(dict(file=mk_file(['none', 'later'][i % 2]), stale_bak=(i % 4 == 1), hkl=True,
+                            calls=[mk_call(ex, res, lst, backup, cyc3[i % 3])]))
     # every other way of ending, with every state of the result file
-    for (ex, res), lst, backup, acta in itertools.product(exitres(EXIT_MORE), ['good', 'short'], [True, False], ['none', 'later']):
-        i = len(out)
-        out.append(dict(file=mk_file(acta), stale_bak=(i % 2 == 1), hkl=True,
-                        calls=[dict(exit=ex, res=res, lst=lst, backup=backup, cycles=None if i % 3 else 5)]))
+    for (ex, res), backup in itertools.product(exitres(EXIT_MORE), both):
+        for lst, acta in (itertools.product(['good', 'short'], ['none', 'later']) if thorough else
+                          [(['good', 'short', 'binary'][len(out) % 3], ['none', 'later'][len(out) % 2])]):
+            i = len(out)
+            out.append(dict(file=mk_file(acta), stale_bak=(i % 2 == 1), hkl=True,
+                            calls=[mk_call(ex, res, lst, backup, None if i % 3 else 5)]))
     # the other directory states / file shapes, on the outcome classes
-    for (ex, res), backup, acta, stale in itertools.product(EXITRES, [True, False], ['none', 'later', 'after_unit'], [True, False]):
-        out.append(dict(file=mk_file(acta), stale_bak=stale, hkl=True,
-                        calls=[dict(exit=ex, res=res, lst='good', backup=backup, cycles=3)]))
-    for (ex, res), backup, acta in itertools.product(EXITRES, [True, False], ['none', 'later']):
+    for (ex, res), backup, acta in itertools.product(EXITRES, both, ['none', 'later', 'after_unit']):
+        for stale in (both if thorough else [len(out) % 2 == 0]):
+            out.append(dict(file=mk_file(acta), stale_bak=stale, hkl=True, calls=[mk_call(ex, res, 'good', backup, 3)]))
+    for (ex, res), backup, acta in itertools.product(EXITRES if thorough else CORE_OUT, both, ['none', 'later']):
         out.append(dict(file=mk_file(acta, nfv=9), stale_bak=False, hkl=True,      # a second FVAR line (absorbed by the parser)
-                        calls=[dict(exit=ex, res=res, lst='good', backup=backup, cycles=3)]))
-    for backup, acta in itertools.product([True, False], ['none', 'later']):
+                        calls=[mk_call(ex, res, 'good', backup, 3)]))
+    for backup, acta in itertools.product(both, ['none', 'later']):
         out.append(dict(file=mk_file(acta), stale_bak=False, hkl=False,           # no reflections: SHELXL is not started
-                        calls=[dict(exit=0, res='good', lst='good', backup=backup, cycles=3)]))
+                        calls=[mk_call(0, 'good', 'good', backup, 3)]))
     return out
 
 
 SEQ_OUT = [(0, 'good', 'good'), (0, 'good', 'short'), (0, 'empty', 'good'), (0, 'missing', 'good'), (1, 'good', 'good'),
            (1, 'untouched', 'missing'), (1, 'missing', 'nolatt'), (3, 'garbage', 'good'),
-           (-11, 'good', 'good'), (-9, 'truncated', 'missing')]
+           (-11, 'good', 'good'), (-9, 'truncated', 'missing'), (0, 'relaid', 'latin1')]
 
 
 def seq_alphabet(outs):
@@ -553,23 +804,52 @@ def with_cycles(calls):
     return [dict(c, cycles=cyc[i % 3]) for i, c in enumerate(calls)]
 
 
+def random_cases(rng, n):
+    """everything at once: any file shape, 1-3 calls with any outcome, any list file, any output, re-reads between"""
+    out = []
+    cons = ['banner'] * 3 + CON_MORE
+    for _ in range(n):
+        calls = []
+        for j in range(rng.choice([1, 2, 2, 3])):
+            if j and rng.random() < 0.3:
+                calls.append(rng.choice(BETWEEN))
+            ex = rng.choice([0, 0, 0] + EXIT_MAIN + EXIT_MORE)
+            calls.append(mk_call(ex, rng.choice(RES_OK if ex == 0 else RES_ALL), rng.choice(list(LST_BYTES)),
+                                 rng.random() < 0.7, rng.choice([None, 0, 2, 9]), rng.choice(cons)))
+        out.append(dict(file=mk_file(rng.choice(['none', 'later', 'after_unit', 'last']), nfv=rng.choice([1, 3, 9]),
+                                     ls=rng.choice(LS_FORMS), lay=rng.choice(LAYOUT_NAMES),
+                                     acta_text=rng.choice([None, 'ACTA', 'ACTA 45 NOHKL'])),
+                        stale_bak=rng.random() < 0.2, hkl=rng.random() < 0.95, calls=calls))
+    return out
+
+
 def run(ctx):
-    ctx.rule = ('one case = a freshly read file (ACTA absent / directly after UNIT / two lines later; one or two FVAR lines; '
-                'L.S. or CGLS in every parameter form) in a directory (with or without an old .shx-bak, with or without .hkl) + 1..3 refine() calls (optionally with a reload()/read_file() of a rewritten .res between them), '
-                'each with an outcome of the stand-in (status 0 / exit 1,3,127,255 / killed by signal 6,9,11,15 x .res written from .ins/'
-                'empty/removed/untouched/garbage/truncated '
-                'x .lst good/missing/short/empty/no-LATT/no-final), backup on/off, cycles None/0/3/4/6/7; one evaluation per '
-                'call, distinct by the history up to it; non-trivial = the stand-in was actually started in that call')
-    ctx.assumptions = ['result files are empty or at least 10 bytes long (hypothesis `plausible`)',
+    ctx.rule = ('one case = a freshly read file (ACTA absent / directly after UNIT / two lines later / last before FVAR; one or '
+                'two FVAR lines; L.S. or CGLS in every parameter form; 11 shapes: blank lines at six places, SFAC continued or '
+                'repeated, SYMM lines, a continuation line behind UNIT, SHELXL\'s own header lines and Q-peaks) in a directory '
+                '(with or without an old .shx-bak, with or without .hkl) + 1..3 refine() calls (optionally with a '
+                'reload()/read_file() of a rewritten .res between them), each with an outcome of the stand-in (status 0 / exit '
+                '1,3,127,255 / killed by signal 6,9,11,15 x .res written from .ins / in SHELXL\'s layout / empty / removed / '
+                'untouched / garbage / truncated x .lst good / 8-bit / CRLF / missing / a directory / short / empty / no-LATT / '
+                'no-final / binary / zero parameters / low ratio x output banner / full / none / 8-bit / binary / short R1 / '
+                '"cannot open hkl"), backup on/off, cycles None/0/2..9; one evaluation per call, distinct by the history up to '
+                'it; non-trivial = the stand-in was actually started in that call')
+    ctx.assumptions = ['result files are empty or at least 10 bytes long, and a program that prints "CANNOT OPEN FILE ...hkl" '
+                       'has failed in the property\'s sense (hypothesis `plausible`; outside it only the model is compared)',
                        'debug=False, verbose=False (debug mode re-raises by design)',
                        'cwd is the directory of the .res file (refine() writes <stem>.ins relative to cwd)',
                        'between calls the model is changed through reload()/read_file() only (add_line/replace_line work on raw '
                        'lines that bypass shx.acta: C04/C08 territory)',
-                       'the stand-in derives a good .res from the .ins it was given (SHELXL never adds ACTA)']
-    cases = singles()
+                       'the stand-in derives a good .res from the .ins it was given (SHELXL never adds ACTA); with status 0 it '
+                       'always writes a result (an untouched .res that still holds ACTA is not a result)',
+                       'the user\'s file has at most one ACTA line']
+    thorough = ctx.tier == 'thorough'
+    # edited source (a mirrored function's digest changed): the quick grid plus more random histories, still within the
+    # quick budget - every run of the stand-in is a process
+    more = 2 if ctx.escalated and not thorough else 1
+    cases = singles(thorough)
     n_single = len(cases)
     alpha = seq_alphabet(SEQ_OUT)
-    thorough = ctx.tier == 'thorough' or ctx.escalated
     if thorough:
         pairs = list(itertools.product(alpha, repeat=2))
         small = seq_alphabet([SEQ_OUT[i] for i in (0, 1, 2, 3, 8, 5)])
@@ -577,18 +857,27 @@ def run(ctx):
         ctx.extra['sequences'] = f'all {len(pairs)} pairs over {len(alpha)} call kinds and all {len(triples)} triples over {len(small)}, each with and without ACTA'
         ctx.exhaustive = True
     else:
-        pairs = ctx.rng.sample(list(itertools.product(alpha, repeat=2)), 70)
-        triples = [tuple(ctx.rng.choice(alpha) for _ in range(3)) for _ in range(50)]
+        pairs = ctx.rng.sample(list(itertools.product(alpha, repeat=2)), 70 * more)
+        triples = [tuple(ctx.rng.choice(alpha) for _ in range(3)) for _ in range(50 * more)]
         # histories that need a particular order: good run with backup then crash without; crash then good run
         triples += [(alpha[0], alpha[9], alpha[0]), (alpha[8], alpha[0], alpha[1]), (alpha[6], alpha[0], alpha[9])]
         ctx.extra['sequences'] = f'{len(pairs)} sampled pairs and {len(triples)} triples over {len(alpha)} call kinds'
     for i, seq in enumerate(list(pairs) + list(triples)):
-        for acta in (['none', 'later'] if thorough else [['later', 'none', 'after_unit'][i % 3]]):
-            cases.append(dict(file=mk_file(acta), stale_bak=(i % 7 == 3), hkl=True, calls=with_cycles(seq)))
-    extra = ls_cases() + between_cases(ctx.rng, thorough)
+        for acta in (['none', 'later'] if thorough else [['later', 'none', 'after_unit', 'last'][i % 4]]):
+            calls = with_cycles(seq)
+            if i % 3 == 2:      # something printed in one of the calls
+                calls[i % len(calls)] = dict(calls[i % len(calls)], con=CON_MORE[(i // 3) % len(CON_MORE)])
+            cases.append(dict(file=mk_file(acta, lay=LAYOUT_NAMES[i % len(LAYOUT_NAMES)] if i % 2 else None),
+                              stale_bak=(i % 7 == 3), hkl=True, calls=calls))
+    extra = (layout_cases(thorough) + console_cases(thorough) + ls_cases(thorough) +
+             between_cases(ctx.rng, thorough, 120 if thorough else 30 * more))
+    rnd = random_cases(ctx.rng, 1500 if thorough else 60 * more)
     ctx.extra['single_calls'] = n_single
     ctx.extra['ls_forms'] = f'{len(LS_FORMS)} forms of L.S./CGLS x cycles None/0/7 x ACTA, two calls each'
     ctx.extra['between'] = 'refine / reload or read_file of a rewritten .res (no ACTA, another ACTA, ACTA after UNIT) / refine'
-    cases = extra + cases        # the multi-step histories first
+    ctx.extra['layouts'] = f'{len(LAYOUT_NAMES)} file shapes x 3 places of ACTA x outcome classes, two calls each'
+    ctx.extra['console'] = f'{len(CON_MORE)} kinds of output x {len(CORE_OUT)} outcome classes x backup'
+    ctx.extra['random'] = len(rnd)
+    cases = extra + cases + rnd        # the systematic multi-step histories first, random cases last
     for i in range(0, len(cases), 400):
         evaluate(ctx, cases[i:i + 400])
